@@ -28,6 +28,7 @@ import (
 	"sort"
 	"strconv"
 	"strings"
+	"sync"
 	"unicode/utf8"
 	"verifharness/runner"
 
@@ -206,7 +207,13 @@ func c15Print(v reflect.Value, out *[]string) error {
 // the Sequence text of the value being printed (parent pointers that lead to the same text print `^ =`)
 var c15Root *string
 
+// c15Root is shared: printing is serialised (requests may run concurrently under VERIF_PAR; the library calls
+// themselves stay concurrent)
+var c15CanonMu sync.Mutex
+
 func c15Canon(x poly.Sequence) (string, error) {
+	c15CanonMu.Lock()
+	defer c15CanonMu.Unlock()
 	c15Root = &x.Sequence
 	defer func() { c15Root = nil }()
 	var out []string
@@ -426,7 +433,7 @@ func c15TempFile() string {
 		}
 	}
 	_ = os.MkdirAll(dir, 0o755)
-	return filepath.Join(dir, fmt.Sprintf("c15-%d.json", os.Getpid()))
+	return filepath.Join(dir, fmt.Sprintf("c15-%d-%d.json", os.Getpid(), runner.Unique()))
 }
 
 // c15Longer is a value whose every serialisation is longer than x's: it is written to a path first, so
